@@ -465,7 +465,9 @@ carquet_status_t carquet_batch_reader_next(
             int64_t values_read = carquet_column_read_batch(
                 col_reader, col_data->data, rows_to_read, def_levels, NULL);
 
-            if (values_read < 0) {
+            /* A short count means a page failed to load part-way: this column
+             * would fall behind the others of the batch */
+            if (values_read != rows_to_read) {
                 read_error = true;
                 free(def_levels);
                 continue;
